@@ -37,6 +37,8 @@ func main() {
 	stats := fl.String("stats", "", "write statistics JSON here")
 	rseed := fl.Int64("rseed", 0, "runner seed override (replay)")
 	strict := fl.Bool("strict", false, "errors of Sync/Compact/Backup/Close are violations (C15 runs)")
+	onlyClosed := fl.Bool("onlyclosed", false, "fault images only between Close and the end of the next Open")
+	noReopen := fl.Bool("noreopen", false, "no clean restarts in generated programs")
 	in := fl.String("in", "", "program file (ndjson) to replay instead of random programs")
 	fl.Parse(os.Args[2:])
 	t0 := time.Now()
@@ -71,8 +73,8 @@ func main() {
 				cfg := h.SmallCfg(rng, *syncw)
 				cfg.Strict = *strict
 				p = h.GenProgram(rng, fmt.Sprintf("%s-%d-%d", *mode, *seed, i), cfg, h.GenOpts{
-					Keys: keys, Ops: *nops, BigVals: true, Compact: true, Reopen: true, Sync: true, Reads: true,
-					CrashAt: *epochs, Close: rng.Intn(2) == 0})
+					Keys: keys, Ops: *nops, BigVals: true, Compact: true, Reopen: !*noReopen, Sync: true, Reads: true,
+					CrashAt: *epochs, Close: !*noReopen && rng.Intn(2) == 0})
 			}
 			rs := *seed + int64(i)
 			if *rseed != 0 {
@@ -80,6 +82,7 @@ func main() {
 			}
 			r := h.NewRunner(rec, p, *mode, rs, *depth, *twice, *plimit)
 			r.ReadEvery = true
+			r.OnlyClosed = *onlyClosed
 			if err := r.Run(p); err != nil {
 				rec.Emit(h.Ev{"e": "note", "what": "run ended: " + err.Error()})
 				tot["ended_early"]++
@@ -94,6 +97,41 @@ func main() {
 			tot["programs"]++
 			if i < 2 {
 				samples = append(samples, p)
+			}
+		}
+		if err := rec.Close(); err != nil {
+			fatal(err)
+		}
+		tot["events"] = rec.Events
+		tot["recordings"] = rec.Recs
+		writeStats(*stats, tot, samples, t0)
+	case "regress":
+		// replays recorded failing programs with the runner parameters they were found with
+		h.PinSeed(0x9e3779b9)
+		rec, err := h.NewRec(*out)
+		if err != nil {
+			fatal(err)
+		}
+		items, err := h.LoadRegress(*in)
+		if err != nil {
+			fatal(err)
+		}
+		tot := map[string]int{}
+		var samples []interface{}
+		for _, it := range items {
+			r := h.NewRunner(rec, it.Prog, it.Run.Mode, it.Run.Seed, it.Run.Depth, it.Run.Twice, it.Run.PLimit)
+			r.ReadEvery = true
+			r.OnlyClosed = it.Run.OnlyClosed
+			if err := r.Run(it.Prog); err != nil {
+				rec.Emit(h.Ev{"e": "note", "what": "run ended: " + err.Error()})
+				tot["ended_early"]++
+			}
+			r.Finish()
+			tot["images"] += r.Images
+			tot["distinct_images"] += r.Distinct
+			tot["programs"]++
+			if len(samples) < 1 {
+				samples = append(samples, it.Prog)
 			}
 		}
 		if err := rec.Close(); err != nil {
